@@ -61,6 +61,17 @@ def main(argv=None):
         shards = [{'replay': rep['violation']['case'], '_env': rep.get('env') or {}}]
     else:
         shards = mod.plan(tier, seed)
+        # HOST_SETTINGS = {'shards': [indices], 'env': {...}}: the named shards run a second time in a process where the host program's
+        # own settings differ (decimal context of the calling thread, see pipeline.guarded); same oracle, same expectations
+        hs = getattr(mod, 'HOST_SETTINGS', None)
+        if hs:
+            extra = []
+            for i in hs['shards'](shards) if callable(hs['shards']) else hs['shards']:
+                sh = dict(shards[i])
+                sh['_env'] = dict(sh.get('_env') or {}, **hs['env'])
+                sh['host_settings'] = True
+                extra.append(sh)
+            shards = shards + extra
 
     outs = parallel.run_all(prop, shards, tier, seed, workroot, TIMEOUT[tier])
     r = Result()
